@@ -5,7 +5,7 @@
    workers against a child of any class: cooperative, swallowing every Exception, blocked in a
    long C call, holding the interpreter lock, SIGSTOPped). *)
 From PW Require Import Ctrl.Model Ctrl.Proofs.
-From PW Require Gen.Ctrl.
+From PW Require Gen.Ctrl Ctrl.RemoteLive Gen.RemoteLive.
 
 (* (a) every call issues at most four blocking primitives (poll for the acknowledgement, join,
    join after SIGTERM, join after SIGKILL), each bounded by the caller's timeout whenever that
@@ -74,6 +74,28 @@ Example C04_example_stopped_child :
      [false; false; true; true]).
 Proof. vm_compute. reflexivity. Qed.
 
+(* the remote kind, parent side: RemoteWorker.is_alive / wait / terminate as lists of decision steps regenerated from the source
+   (Gen/RemoteLive.v).  In every state in which the cached flags are true and under every behaviour of the environment during the call
+   (the child process ends before the server answers or not; the frontend thread finishes within the join or not) each of the three
+   answers; it says "dead" only when the child process is gone AND the frontend thread has stored the outcome; and the cached flags
+   stay true, so that the next call - any number of them, in any order - starts from such a state again. *)
+Theorem C04_remote_answers_are_truthful :
+  forall m steps, In (m, steps) [(Ctrl.RemoteLive.MAlive, Gen.RemoteLive.gen_remote_is_alive); (Ctrl.RemoteLive.MWait, Gen.RemoteLive.gen_remote_wait);
+                                 (Ctrl.RemoteLive.MWait, Gen.RemoteLive.gen_remote_terminate)] ->
+  forall s e, Ctrl.RemoteLive.inv s = true ->
+    exists dead s', Ctrl.RemoteLive.run m e steps s = (Some dead, s') /\ Ctrl.RemoteLive.inv s' = true /\
+                    (dead = true -> Ctrl.RemoteLive.front s' = false /\ Ctrl.RemoteLive.proc s' = false).
+Proof.
+  intros m steps H. apply Ctrl.RemoteLive.sound_means.
+  destruct H as [H|[H|[H|[]]]]; inversion H; subst; vm_compute; reflexivity.
+Qed.
+
+(* an answer derived from anything but the server's word and the frontend thread - here: is_alive() without the question - is not truthful *)
+Theorem C04_refuted_if_is_alive_does_not_ask_the_server :
+  Ctrl.RemoteLive.sound Ctrl.RemoteLive.MAlive [Ctrl.RemoteLive.RKnown; Ctrl.RemoteLive.RFront; Ctrl.RemoteLive.RRetFalse] = false
+  /\ Ctrl.RemoteLive.sound Ctrl.RemoteLive.MWait [Ctrl.RemoteLive.RKnown; Ctrl.RemoteLive.RJoin] = false.
+Proof. split; vm_compute; reflexivity. Qed.
+
 Print Assumptions C04_bounded.
 Print Assumptions C04_truthful.
 Print Assumptions C04_history_invariant.
@@ -81,3 +103,5 @@ Print Assumptions C04_idempotent_when_dead.
 Print Assumptions C04_force_terminate_kills.
 Print Assumptions C04_refuted_if_the_acknowledgement_wait_is_unbounded.
 Print Assumptions C04_refuted_without_the_sigkill_escalation.
+Print Assumptions C04_remote_answers_are_truthful.
+Print Assumptions C04_refuted_if_is_alive_does_not_ask_the_server.
